@@ -47,6 +47,9 @@ impl Country {
         use std::io::Read;
 
         static BOUNDARIES: LazyLock<CountryBoundaries> = LazyLock::new(|| {
+            #[cfg(oh_verif)]
+            crate::verif_hooks::lazy_event("BOUNDARIES", "begin");
+
             let mut buffer = Vec::new();
 
             DeflateDecoder::new(include_bytes!(env!("COUNTRY_BOUNDS_FILE")).as_slice())
@@ -56,6 +59,9 @@ impl Country {
             CountryBoundaries::from_reader(buffer.as_slice())
                 .expect("failed to load country boundaries database")
         });
+
+        #[cfg(oh_verif)]
+        crate::verif_hooks::lazy_event("BOUNDARIES", "gate");
 
         for cc in BOUNDARIES.ids(country_boundaries::LatLon::new(coords.lat(), coords.lon()).ok()?)
         {
@@ -102,6 +108,9 @@ impl Country {
         }
 
         static DB_PUBLIC: LazyLock<HashMap<Country, Arc<CompactCalendar>>> = LazyLock::new(|| {
+            #[cfg(oh_verif)]
+            crate::verif_hooks::lazy_event("DB_PUBLIC", "begin");
+
             decode_holidays_db(
                 env!("HOLIDAYS_PUBLIC_REGIONS"),
                 include_bytes!(env!("HOLIDAYS_PUBLIC_FILE")),
@@ -109,11 +118,17 @@ impl Country {
         });
 
         static DB_SCHOOL: LazyLock<HashMap<Country, Arc<CompactCalendar>>> = LazyLock::new(|| {
+            #[cfg(oh_verif)]
+            crate::verif_hooks::lazy_event("DB_SCHOOL", "begin");
+
             decode_holidays_db(
                 env!("HOLIDAYS_SCHOOL_REGIONS"),
                 include_bytes!(env!("HOLIDAYS_SCHOOL_FILE")),
             )
         });
+
+        #[cfg(oh_verif)]
+        crate::verif_hooks::lazy_event("DB_HOLIDAYS", "gate");
 
         ContextHolidays::new(
             DB_PUBLIC.get(&self).cloned().unwrap_or_default(),
